@@ -226,8 +226,8 @@ def arrival_terminal(ctx, P, iters):
                 reason = "exit-without-single-record"
             elif acc[0].d["recv"] != EXIT and recs:
                 reason = "record-on-admission"
-            elif recs and st.events.index(recs[0]) > st.events.index(acc[0]):
-                reason = "record-after-handover"
+            elif recs and st.events.index(recs[0]) > st.events.index(acc[0]) and acc[0].d["recv"] != EXIT:
+                reason = "record-after-handover"      # (at the exit the order is free: ExitNode.accept does not touch the customer's fields)
             if reason and (cls.name, reason) not in done:
                 done.add((cls.name, reason))
                 ctx.violation(ob, "R4.terminal-record", "%s.release_individual" % cls.name, " -> ".join(x.d["meth"] for x in st.events), reason,
